@@ -13,7 +13,7 @@ PROP = dict(
     rule="one evaluation = one invocation group of the real chewing-cli binary (init-database, then dump and dump --csv of "
          "the result; or a library lookup of one key in the built file; or char::is_whitespace over all code points) whose "
          "exit status, reported line numbers, output-file existence and complete dump texts the model recomputes from the "
-         "source text; sources: fixed witnesses, the repository's tests/data/*.src, seeded generated sources (quoted fields, "
+         "source text; sources: fixed witnesses, byte sources with invalid UTF-8, the repository's tests/data/*.src, seeded generated sources (quoted fields, "
          "repeated delimiters, comments, duplicates, homophones, prefix keys, CRLF, no final newline, non-BMP text, u32 "
          "limits) x all 8 configurations (2 back ends x keep x skip) in the source's format, every dump compiled again in "
          "its own format, and ~30 single-line corruptions per line (all lines of the first sources, sampled for the rest) "
@@ -26,9 +26,11 @@ PROP = dict(
                   "order and lookup order are modelled and compared with the real files on every run, not derived from bytes",
                   "slice::sort_by is a stable sort; on comparators that are not a total order (leaves mixing one-character "
                   "and longer phrases) the model is the insertion sort std uses for <= 20 elements"],
-    assumptions=["text is modelled as a list of code points; only valid UTF-8 sources are generated",
+    assumptions=["text is modelled as a list of code points; sources are bytes only at the entrance (readRawLines / compileRaw: "
+                 "strict UTF-8 decoding per line), where a line that is not valid UTF-8 ends the run (F45)",
                  "known findings: F27 (no-syllables, length-mismatch, empty-phrase, word-freq-unchecked: malformed lines the "
-                 "parser accepts), F18-tone1 (a first-tone mark does not survive the dump), F34-sqlite-order (SQLite candidate "
+                 "parser accepts), F45 invalid-utf8 (a line that is not valid UTF-8 aborts the run unnumbered, --skip-invalid or "
+                 "not), F18-tone1 (a first-tone mark does not survive the dump), F34-sqlite-order (SQLite candidate "
                  "order of one-syllable keys changes when the dump is compiled again) — each refuted with a witness and "
                  "excluded by an explicit hypothesis in the partial theorem"],
 )
@@ -49,8 +51,9 @@ MANIFEST = dict(
          "numbers; nothing is built unless --skip-invalid) / skip_invalid_keeps_valid; accepted_iff + rejected_cause (exactly "
          "which lines parse_line accepts). REFUTED on the unchanged code, with witness + partial theorem each: MalformedFull "
          "(F27: lines without syllables, with a syllable/character count mismatch, an empty phrase, or an unchecked "
-         "one-character frequency are accepted), RoundTripFull (F18: a first-tone mark is not dumped), RecompiledLookupFull "
-         "(F34). CORRESPONDENCE: the REAL chewing-cli binary built from the tree is run on fixed, repository and generated "
+         "one-character frequency are accepted), SkipInvalidFull (F45: a line that is not valid UTF-8 stops the run with an "
+         "I/O error, no line number, --skip-invalid or not; raw_run_is_text_run outside that class), RoundTripFull (F18: a "
+         "first-tone mark is not dumped), RecompiledLookupFull (F34). CORRESPONDENCE: the REAL chewing-cli binary built from the tree is run on fixed, repository and generated "
          "sources and on ~30 single-line corruptions per line; exit status, reported line numbers, output existence, complete "
          "dump texts and library lookups (original and recompiled file) are recomputed by the model; the harness oracle "
          "evaluates the property statement directly and classifies every failure exactly (known class or new).",
